@@ -143,12 +143,21 @@ package stdlibspec
 //@ extern (net/http.Header).Values(h, key)
 //@   pure
 //@   ensures has(h, canon(key)) ==> result == get(h, canon(key))
-//@   ensures !has(h, canon(key)) ==> len(result) == 0
+//@   ensures !has(h, canon(key)) ==> len(result) == 0 && result == nil
 //@ extern (net/http.Header).Clone(h)
 //@   pure
 //@   ensures h == nil ==> result == nil
 //@   ensures h != nil ==> result != nil && fresh(result)
 //@   ensures forall k string :: has(result, k) == has(h, k) && len(get(result, k)) == len(get(h, k)) && hget(result, k) == hget(h, k)
+//@   ensures forall k string :: joinAll(result, k) == joinAll(h, k)
+// all values of field k joined with ',' (RFC 9110 §5.3: several field lines form one list)
+//@ spec func joinS(a Arr[int, string], off int, n int) string
+//@ axiom joinS-none: forall a Arr[int, string], off int :: joinS(a, off, 0) == ""
+//@ axiom joinS-one: forall a Arr[int, string], off int :: joinS(a, off, 1) == a[off]
+//@ spec func joinAll(h http.Header, k string) string = ite(has(h, k), joinS(elemsArr(get(h, k)), sliceOff(get(h, k)), len(get(h, k))), "")
+//@ extern strings.Join(elems, sep)
+//@   pure
+//@   ensures sep == "," ==> result == joinS(elemsArr(elems), sliceOff(elems), len(elems))
 //@ extern net/http.CanonicalHeaderKey(s)
 //@   pure
 //@   ensures result == canon(s)
@@ -221,6 +230,7 @@ package stdlibspec
 //@   ensures r.Header == nil ==> result.Header == nil
 //@   ensures forall k string :: has(result.Header, k) == has(r.Header, k) && hget(result.Header, k) == hget(r.Header, k)
 //@   ensures hget(result.Header, "Cache-Control") == hget(r.Header, "Cache-Control") && hget(result.Header, "Range") == hget(r.Header, "Range")
+//@   ensures joinAll(result.Header, "Cache-Control") == joinAll(r.Header, "Cache-Control")
 //@ extern (*net/http.Request).WithContext(r, ctx)
 //@   pure
 //@   fresh
